@@ -108,7 +108,6 @@ mixed probe() {
   // a fixed evaluation touching calls, catch, containers, load and destruct: must behave as in a fresh driver
   mixed e, r;
   object o;
-  fill();                        // every slot of the apply cache is looked at again
   "/t/c05hookctl"->arm("");      // a hook armed by the failed evaluation is one of its legitimate side effects: disarm
   e = catch(error("probe\n"));
   o = new("/t/c05thing");
@@ -191,6 +190,8 @@ def evaluate_one(ctx, w, plan, site, k, probe_ref):
     steps.append(["call", "t/c05", "run", arg(",".join(plan)), arg(lpc_site)])
     ci = len(steps) - 1
     steps += [["monitor", "report"], ["monitor", "reset"], ["regs"], ["call", "t/c05", "state"], ["call", "t/c05", "probe"], ["regs"]]
+    if site == "deepmiss":
+        steps.append(["call", "t/c05", "fill"])      # every slot of the apply cache is looked at again
     res = w.run(steps)
     return res, ci
 
